@@ -77,6 +77,32 @@ def path_alphabet(spec):
     return alph
 
 
+def _scripted_default_rng(seed=None):
+    """default_rng replacement for infretis.classes.repex: same bit generator and
+    seed sequence as the real one, but draws are explorer choice points."""
+    g = np.random.default_rng(seed)
+    out = sr.ScriptedGenerator(g.bit_generator)
+    out.tag = "pick"
+    return out
+
+
+def activate(scripted):
+    from infretis.classes import repex
+
+    repex.default_rng = _scripted_default_rng if scripted else np.random.default_rng
+
+
+def deactivate():
+    activate(False)
+
+
+def stream_key(g):
+    ss = g.bit_generator._seed_seq
+    st = g.bit_generator.state["state"]
+    return (int(ss.entropy) if ss.entropy is not None else None, tuple(int(x) for x in ss.spawn_key),
+            f"{st['state']:x}-{st['inc']:x}")
+
+
 class StubStore:
     """PathStorage.output replaced by the identity (L1 has no trajectory files)."""
 
@@ -97,6 +123,7 @@ class L1Run:
         self.issued = []  # every job ever issued (observation records)
         self.alph = path_alphabet(spec)
         self.accepted_counter = 0
+        self.pick_answers = []  # answers of the scheduler's random draws since the last restart-file write
         self._setup()
 
     # ------------------------------------------------------------------
@@ -112,12 +139,11 @@ class L1Run:
         scenario.reset_globals()
         os.chdir(self.dir)
         sr.use(self.ch)
+        activate(spec.scripted)
         config = setup_config("infretis.toml")
         self.md_items, self.state = setup_internal(config)
         st = self.state
-        if spec.scripted:
-            st.rgen = sr.make()
-            st.rgen.tag = "pick"
+        self.restarts = 0
         if not spec.real_store:
             st.pstore = StubStore()
         # REPEX_state.traj_data is a class-level dict mutated in place; bind it to the
@@ -134,12 +160,46 @@ class L1Run:
             (self.state, self.inflight, self.md_items, self.issued, self.obs))
         new.ch = chooser
         sr.use(chooser)
+        activate(self.spec.scripted)
         if self.spec.scripted:
             # deepcopy turns the scripted generator into a plain one: re-bind
-            new.state.rgen = sr.make()
+            # (note: deepcopy also resets the seed sequence's spawn counter, so
+            # snapshots must not be used where stream identities matter: C07
+            # explores by replay from scratch)
+            new.state.rgen = sr.ScriptedGenerator(new.state.rgen.bit_generator)
             new.state.rgen.tag = "pick"
         os.chdir(self.dir)
         return new
+
+    def restart(self):
+        """The main process dies (in-flight jobs are lost) and the program is
+        started again from the files on disk."""
+        from infretis.setup import setup_config, setup_internal
+
+        scenario.reset_globals()
+        os.chdir(self.dir)
+        activate(self.spec.scripted)
+        toml = "restart.toml" if os.path.isfile("restart.toml") else "infretis.toml"
+        config = setup_config(toml)
+        if config is None:
+            raise Violation("restart:setup_config-none", f"setup_config({toml}) refused to restart")
+        self.md_items, self.state = setup_internal(config)
+        if not self.spec.real_store:
+            self.state.pstore = StubStore()
+        self.state.traj_data = self.state.traj_data
+        self.lost = list(self.inflight)
+        self.inflight = []
+        self.restarts += 1
+        for o in self.obs:
+            o.on_restart(self)
+        # the generator state is restored from the file, so the draws made since that
+        # file was written are answered exactly as before (they are not free choices)
+        answers = list(self.pick_answers)
+        self.pick_answers = []
+        self.ch.forced = [("pick", c) for lab, c in answers]
+        self.start()
+        self.ch.forced = []
+        self.pick_answers = answers  # restart.toml unchanged: a further restart replays them again
 
     # ------------------------------------------------------------------
     def start(self):
@@ -147,11 +207,22 @@ class L1Run:
         while st.initiate():
             md = copy.deepcopy(self.md_items)
             before = self._pre_pick()
+            n0 = len(self.ch.trace)
             md = st.prep_md_items(md)
+            self._note_pick(n0)
             self._issued(md, before)
             self.inflight.append(md)
         for o in self.obs:
             o.on_state(self)
+
+    def _note_pick(self, n0):
+        """Remember how the scheduler's own draws were answered: after a restart the
+        restored generator state must give the same answers."""
+        for c, n, lab, w in self.ch.trace[n0:]:
+            if lab.startswith("pick"):
+                if lab.endswith("!"):
+                    continue
+                self.pick_answers.append((lab, c))
 
     def _pre_pick(self):
         st = self.state
@@ -161,7 +232,10 @@ class L1Run:
     def _issued(self, md, before):
         rec = dict(pin=md["pin"], ens=tuple(md["ens_nums"]), pn=tuple(md["pnum_old"]),
                    w_folder=md.get("w_folder"), eng={e: dict(md["picked"][e]["eng_idx"]) for e in md["ens_nums"]},
-                   ordinal=len(self.issued))
+                   ordinal=len(self.issued), restarts=self.restarts, cstep=self.state.cstep,
+                   streams={e: (stream_key(md["picked"][e]["ens"]["rgen"]), stream_key(md["picked"][e]["rgen-eng"]))
+                            for e in md["ens_nums"]},
+                   scheduler=stream_key(self.state.rgen))
         self.issued.append(rec)
         for o in self.obs:
             o.on_pick(self, md, before, rec)
@@ -169,6 +243,10 @@ class L1Run:
     def outcomes(self, md):
         ens = tuple(md["ens_nums"])
         outs = [("REJ",)]
+        if self.spec.alphabet == "min":
+            if len(ens) == 1:
+                return outs + [("ACC", self.alph[ens[0]][0])]
+            return outs + [("ACC", self.alph[-1][0], self.alph[0][0])]
         if len(ens) == 1:
             for p in self.alph[ens[0]]:
                 outs.append(("ACC", p))
@@ -188,8 +266,17 @@ class L1Run:
             old = picked[ens_num]["traj"]
             if status == "ACC":
                 self.accepted_counter += 1
+                tag = f"acc{self.accepted_counter}"
+                if self.spec.real_store:
+                    # the trajectory file an engine would have left in the worker folder
+                    from infretis.classes.engines.engineparts import write_xyz_trajectory
+
+                    tag = os.path.join(md["w_folder"], f"{tag}_e{ens_num + 1}.xyz")
+                    for i, x in enumerate(outcome[1 + k]):
+                        write_xyz_trajectory(tag, np.array([[float(x), 0.0, 0.0]]), np.zeros((1, 3)), ["X"],
+                                             np.array([100.0, 100.0, 100.0]), step=i)
                 trial = lat.mk_path(outcome[1 + k], maxlen=self.spec.maxlength,
-                                    generated=("sh", 0.0, 1, 1), tag=f"acc{self.accepted_counter}")
+                                    generated=("sh", 0.0, 1, 1), tag=tag)
                 trial.status = "ACC"
             else:
                 trial = old
@@ -220,12 +307,15 @@ class L1Run:
                       locks=st._locks.copy(), live=list(st.live_paths()), traj_num=st.config["current"]["traj_num"],
                       data_size=os.path.getsize(st.data_file) if os.path.isfile(st.data_file) else 0)
         md = st.treat_output(md)
+        self.pick_answers = []  # restart.toml now holds the generator state after these draws
         self.events += 1
         for ob in self.obs:
             ob.on_treat(self, md, before, outs[o])
         if st.cstep + st.workers <= st.tsteps:
             pre = self._pre_pick()
+            n0 = len(self.ch.trace)
             md = st.prep_md_items(md)
+            self._note_pick(n0)
             self._issued(md, pre)
             self.inflight.append(md)
         for ob in self.obs:
@@ -251,6 +341,9 @@ class L1Run:
 
 class Observer:
     def on_setup(self, run):
+        pass
+
+    def on_restart(self, run):
         pass
 
     def on_pick(self, run, md, before, rec):
